@@ -19,7 +19,7 @@ SPEC = dict(
     exhaustive={},
     require=['list-rings-walked', 'slist-walked', 'slist-tail-designates-last-node', 'que-state-compared-with-model', 'que-indexed-access',
              'que-recycled-node-not-enqueued', 'que-pull-returns-the-element', 'que-sorted-insert-keeps-order-and-elements', 'que-element-swap',
-             'que-whole-swap', 'que-drop', 'que-setz', 'que-foreach-macros', 'list-foreach-macros', 'slist-foreach-macros', 'que-destroyed',
+             'que-whole-swap', 'que-drop', 'que-setz', 'que-foreach-macros', 'list-foreach-macros', 'slist-foreach-macros', 'que-destroyed', 'que-ctor-dtor-on-caller-storage',
              'que-pull-from-empty-returns-null'],
     cov_files=['que.c'], cov_cases=600,
     assumptions=_COMMON + [
